@@ -68,7 +68,7 @@ var wanted = map[string]bool{
 	"TraitEntry.ExpireAt": true, "TraitEntry.Key": true, "TraitEntry.Value": true,
 	"TraitEntryOf.ExpireAt": true, "TraitEntryOf.Key": true, "TraitEntryOf.Value": true,
 	"ts": true, "tsTime": true, "readerCnt.Read": true, "writerCnt.Write": true,
-	"NoOp.Read": true, "NoOp.Write": true, "NoOp.Delete": true, "syncMap.deleteEntry": true,
+	"NoOp.Read": true, "NoOp.Write": true, "NoOp.Delete": true, "syncMap.deleteEntry": true, "syncMap.expireEntry": true,
 	"NewInvalidationIndex": true, "HTTPTransfer.CachesCount": true, "NewTrait": true, "NewTraitOf": true,
 	"SentinelError.Error": true, "ShardedMapOf.WalkDumpRestorer": true, "shardedMapLegacyWalkerOf.Walk": true,
 	"syncMap.evictLeastCounter": true, "syncMap.evictMostExpired": true, "shardedMapOf.evictLeastCounter": true, "shardedMapOf.evictMostExpired": true,
